@@ -64,7 +64,8 @@ type Document struct {
 	// pointerCache is setup once when the document is created.
 	pointerCache sync.Map // map[string]Node
 
-	families FamilyNodes
+	families           FamilyNodes
+	familiesGeneration uint64
 }
 
 // String will render the entire GEDCOM document.
@@ -133,12 +134,15 @@ func (doc *Document) NodeByPointer(ptr string) Node {
 
 // Families returns the family entities in the document.
 func (doc *Document) Families() (families FamilyNodes) {
-	if doc.families != nil {
+	generation := currentEditGeneration()
+
+	if doc.families != nil && doc.familiesGeneration == generation {
 		return doc.families
 	}
 
 	defer func() {
 		doc.families = families
+		doc.familiesGeneration = generation
 	}()
 
 	families = FamilyNodes{}
@@ -198,6 +202,7 @@ func (doc *Document) AddNode(node Node) {
 	if !IsNil(node) {
 		doc.nodes = append(doc.nodes, node)
 		doc.addPointerToCache(node)
+		nodesChanged()
 	}
 }
 
@@ -278,6 +283,8 @@ func (doc *Document) nonIndividuals() Nodes {
 
 func (doc *Document) SetNodes(nodes Nodes) {
 	doc.nodes = nodes
+	doc.buildPointerCache()
+	nodesChanged()
 }
 
 func individuals(doc *Document) IndividualNodes {
@@ -334,6 +341,8 @@ func (doc *Document) AddFamilyWithHusbandAndWife(pointer string, husband, wife *
 
 func (doc *Document) DeleteNode(node Node) (didDelete bool) {
 	doc.nodes, didDelete = doc.nodes.deleteNode(node)
+	doc.buildPointerCache()
+	nodesChanged()
 
 	return
 }
